@@ -200,6 +200,20 @@ CHECKS = {
         technique="TLA+ aliasing model (TLC exhaustive) + TLC-generated histories replayed on two builds + TLC trace monitor",
         design_ref="DESIGN.md section 5 C17",
     ),
+    "C18": dict(
+        level="model_checking",
+        text="Encryption.tla models the AAD scheme (file, module type, row group, column, page ordinal) together with "
+             "the page reader's ordinal counting along sequential reads and seeks; TLC checks that ordinals agree with "
+             "positions, untampered files always decrypt and a delivered page is always the genuine page of its "
+             "position, for every short history and single tampering. EncScen.tla spans the option x tamper x path "
+             "space; the harness writes encrypted files, reads them back, scans raw bytes for plaintext markers and "
+             "tampers with copies (flip, swap, transplant from another file / column / row group, wrong or missing "
+             "key, truncation); CryptoMon.tla judges every read.",
+        note="AES-GCM trusted; tampering targets data page body modules (other module types only through round trips); "
+             "static keys.",
+        technique="TLA+ AAD/ordinal model (TLC exhaustive) + TLC-enumerated option x tamper space replayed on the code + TLC trace monitor",
+        design_ref="DESIGN.md section 5 C18",
+    ),
     "C20": dict(
         level="model_checking",
         text="CodecPool.tla models the pooled Decompressor protocol (instance taken from / returned to the pool, "
